@@ -52,7 +52,47 @@ class Effects:
         alias: dict[str, set] = {p: {p} for p in params}
         attrdict_of: dict[str, set] = {}       # name -> params whose node-attribute dicts it may be
         nodeview_of: dict[str, set] = {}
+        attrtable_of: dict[str, set] = {}      # name -> params of which it is a {node: attribute dict} table that shares the dicts
+        elem_of: dict[str, set] = {}           # name -> plain container params of which it denotes an element (a dict / list inside)
         effects: set = set()
+
+        def table_params(e: ast.expr) -> set:
+            """graph params whose attribute dicts the table denoted by e shares: dict(m.nodes(data=True)), dict(m.nodes.items()),
+            {k: v for k, v in m.nodes(data=True)}, m._node"""
+            if isinstance(e, ast.Name):
+                return set(attrtable_of.get(e.id, ()))
+            if isinstance(e, ast.Attribute) and e.attr in ("_node",):
+                return obj_params(e.value)
+            inner = e
+            if isinstance(e, ast.Call) and isinstance(e.func, ast.Name) and e.func.id == "dict" and len(e.args) == 1:
+                inner = e.args[0]
+            elif isinstance(e, ast.DictComp) and len(e.generators) == 1 and isinstance(e.generators[0].target, ast.Tuple) and len(e.generators[0].target.elts) == 2 \
+                    and isinstance(e.value, ast.Name) and isinstance(e.generators[0].target.elts[1], ast.Name) and e.value.id == e.generators[0].target.elts[1].id:
+                inner = e.generators[0].iter
+            elif isinstance(e, ast.DictComp) and len(e.generators) == 1 and isinstance(e.value, ast.Subscript) and isinstance(e.value.value, ast.Attribute) and e.value.value.attr == "nodes":
+                return obj_params(e.value.value.value)
+            else:
+                return set()
+            if isinstance(inner, ast.Call) and isinstance(inner.func, ast.Attribute):
+                f_ = inner.func
+                d_ = kwarg(inner, "data") or (inner.args[0] if inner.args else None)
+                if f_.attr == "nodes" and isinstance(d_, ast.Constant) and d_.value is True:
+                    return obj_params(f_.value)
+                if f_.attr in ("items", "data") and isinstance(f_.value, ast.Attribute) and f_.value.attr == "nodes" and \
+                        (f_.attr == "items" or not inner.args or (isinstance(inner.args[0], ast.Constant) and inner.args[0].value is True)):
+                    return obj_params(f_.value.value)
+            if isinstance(inner, ast.Attribute) and inner.attr in ("_node",):
+                return obj_params(inner.value)
+            return set()
+
+        def elem_params(e: ast.expr) -> set:
+            """plain container params an element of which e denotes:  p[k] / a name bound to one"""
+            if isinstance(e, ast.Name):
+                return set(elem_of.get(e.id, ()))
+            if isinstance(e, ast.Subscript) and isinstance(e.value, ast.Name):
+                ps_ = obj_params(e.value)
+                return {q for q in ps_ if not _looks_like_graph(fi, e.value, alias)}
+            return set()
 
         def obj_params(e: ast.expr) -> set:
             if isinstance(e, ast.Name):
@@ -111,6 +151,12 @@ class Effects:
                             attrdict_of.setdefault(tg.id, set()).update(ap)
                         if isinstance(val, ast.Attribute) and val.attr == "nodes":
                             nodeview_of.setdefault(tg.id, set()).update(obj_params(val.value))
+                        tp_ = table_params(val)
+                        if tp_:
+                            attrtable_of.setdefault(tg.id, set()).update(tp_)
+                        ep_ = elem_params(val) if isinstance(val, ast.Subscript) else set()
+                        if ep_:
+                            elem_of.setdefault(tg.id, set()).update(ep_)
                 if isinstance(n, (ast.For, ast.comprehension)):
                     it = n.iter
                     base = it
@@ -128,6 +174,16 @@ class Effects:
                             ps = obj_params(f.value.value)
                     if ps and isinstance(n.target, ast.Tuple) and len(n.target.elts) == 2 and isinstance(n.target.elts[1], ast.Name):
                         attrdict_of.setdefault(n.target.elts[1].id, set()).update(ps)
+                    # for k, d in table.items() / for d in table.values(): elements of a table
+                    if isinstance(base, ast.Call) and isinstance(base.func, ast.Attribute) and base.func.attr in ("items", "values") and not base.args and isinstance(base.func.value, ast.Name):
+                        tname = base.func.value.id
+                        tgt_ = n.target.elts[1] if base.func.attr == "items" and isinstance(n.target, ast.Tuple) and len(n.target.elts) == 2 else (n.target if base.func.attr == "values" else None)
+                        if isinstance(tgt_, ast.Name):
+                            if tname in attrtable_of:
+                                attrdict_of.setdefault(tgt_.id, set()).update(attrtable_of[tname])
+                            plain = {q for q in alias.get(tname, ()) if not _looks_like_graph(fi, base.func.value, alias)}
+                            if plain:
+                                elem_of.setdefault(tgt_.id, set()).update(plain)
             # effects
             for n in own_walk(fn):
                 if isinstance(n, ast.Call):
@@ -158,6 +214,10 @@ class Effects:
                                         effects.add((q, kind, key, text, line, where))
                                     for q in attr_params(n.args[i]):
                                         effects.add((q, "attr", key if kind == "container" else key, text, line, where))
+                                    if kind == "elemattr":
+                                        # the callee changes the dicts inside the table it is handed
+                                        for q in table_params(n.args[i]):
+                                            effects.add((q, "attr", key, text, line, where))
                     elif isinstance(n.func, ast.Attribute):
                         recv = n.func.value
                         m = n.func.attr
@@ -168,6 +228,10 @@ class Effects:
                         if m in MUTATORS | {"update"} and attr_params(recv):
                             key = try_const(ctx, fi, n.args[0], default="?") if n.args and m in ("pop", "setdefault") else "*"
                             add(attr_params(recv), "attr", key, n)
+                        if m in MUTATORS | {"update"} and elem_params(recv):
+                            add(elem_params(recv), "elemattr", "*", n)
+                        if m in MUTATORS | {"update"} and isinstance(recv, ast.Subscript) and table_params(recv.value):
+                            add(table_params(recv.value), "attr", "*", n)
                 tgts = []
                 if isinstance(n, ast.Assign):
                     tgts = n.targets
@@ -196,6 +260,15 @@ class Effects:
                                 continue
                         if isinstance(inner, ast.Attribute) and inner.attr == "graph":
                             add(obj_params(inner.value), "structure", "graph-level data", n)
+                            continue
+                        if isinstance(inner, ast.Name) and elem_params(inner):
+                            add(elem_params(inner), "elemattr", try_const(ctx, fi, t.slice, default="?"), n)
+                            continue
+                        if isinstance(inner, ast.Subscript) and elem_params(inner):
+                            add(elem_params(inner), "elemattr", try_const(ctx, fi, t.slice, default="?"), n)
+                            continue
+                        if isinstance(inner, ast.Subscript) and table_params(inner.value):
+                            add(table_params(inner.value), "attr", try_const(ctx, fi, t.slice, default="?"), n)
                             continue
                         if isinstance(inner, ast.Name) and obj_params(inner):
                             add(obj_params(inner), "container", "item store", n)
